@@ -3,7 +3,7 @@
 usage: tools/selftest.py [substring-filter]"""
 import glob, os, subprocess, sys
 V = os.path.dirname(os.path.dirname(os.path.abspath(__file__)))
-W = os.environ.get('VERIF_PROBE', '/var/tmp/l21-probe')
+W = os.environ.get('VERIF_MUT', '/var/tmp/l21-mut')
 flt = sys.argv[1] if len(sys.argv) > 1 else ''
 if not os.path.isdir(W):
     subprocess.run(['git', '-C', '/repo', 'worktree', 'add', '-q', '--detach', W, 'HEAD'], check=True)
